@@ -771,7 +771,7 @@ impl World {
             }
         }
         let io = self.io.lock().unwrap();
-        let link_up = !io.eof && !io.read_err && self.fault_done.map_or(true, |f| !matches!(f.0, FaultKind::Eof | FaultKind::Reset | FaultKind::Garbage | FaultKind::ShortGarbage));
+        let link_up = !io.eof && !io.read_err && self.fault_done.map_or(true, |f| !matches!(f.0, FaultKind::Eof | FaultKind::Reset | FaultKind::Garbage | FaultKind::ShortGarbage | FaultKind::InnerOverrun));
         if link_up {
             for r in &self.server.reqs {
                 if self.srv_can_answer(r) {
@@ -913,6 +913,13 @@ impl World {
                         }
                         io.staged.clear();
                         io.deliver(&[0x30, 0x00]);
+                    }
+                    FaultKind::InnerOverrun => {
+                        if !io.staged.is_empty() {
+                            self.emitted = self.routed.iter().map(|(k, v)| (*k, v.0)).collect();
+                        }
+                        io.staged.clear();
+                        io.deliver(&[0x30, 0x0c, 0x02, 0x01, 0x02, 0x61, 0x0a, 0x0a, 0x01, 0x00, 0x04, 0x00, 0x04, 0x00]);
                     }
                     FaultKind::BadResultTail => {
                         if let Some(r) = self.server.reqs.iter_mut().find(|r| !r.done && !r.abandoned && matches!(r.kind, RK::Single(_) | RK::Search)) {
@@ -1215,7 +1222,7 @@ impl World {
                 if plan.extra_res_ctrl {
                     ctrls.push(extra_ctl(&r.marker));
                 }
-                let m = Msg { id, op: single_resp(tag, res, &r.marker, plan.binary_payload), controls: if ctrls.is_empty() { None } else { Some(ctrls) } };
+                let m = Msg { id, op: single_resp(tag, res, &r.marker, plan.binary_payload), controls: if ctrls.is_empty() && !plan.empty_ctrls { None } else { Some(ctrls) } };
                 self.push_frame(&m);
                 self.server.reqs[idx].done = true;
                 self.server.last_answered_single = Some((id, tag));
@@ -1241,6 +1248,8 @@ impl World {
                     };
                     let controls = if plan.item_ctrls {
                         Some(vec![Ctl { oid: ITEM_CTL_OID.as_bytes().to_vec(), crit: Some(false), val: Some(label.into_bytes()) }])
+                    } else if plan.empty_ctrls {
+                        Some(vec![])
                     } else {
                         None
                     };
@@ -1281,7 +1290,7 @@ impl World {
                             self.server.paging_over.insert(r.marker.clone());
                         }
                     }
-                    let m = Msg { id, op: Op::SearchDone(res), controls: if ctrls.is_empty() { None } else { Some(ctrls) } };
+                    let m = Msg { id, op: Op::SearchDone(res), controls: if ctrls.is_empty() && !plan.empty_ctrls { None } else { Some(ctrls) } };
                     self.push_frame(&m);
                     self.server.reqs[idx].done = true;
                     self.server.last_done_search = Some(id);
@@ -1445,6 +1454,7 @@ impl World {
                         match plan.cookie {
                             CookieStyle::Constant => b"C".to_vec(),
                             CookieStyle::TailLooksEmpty => vec![0xde, served as u8 + 1, 0x04, 0x00],
+                            CookieStyle::Long(n) => (0..n).map(|j| if j == 0 { served as u8 + 1 } else { (j % 251) as u8 }).collect(),
                             _ => vec![0x00, 0xff, served as u8 + 1],
                         }
                     });
@@ -2249,7 +2259,7 @@ impl World {
                 let io = self.io.lock().unwrap();
                 (io.write_errors, io.eof || io.read_err)
             };
-            let failure_observable = rd_fault || self.fault_done.map_or(false, |f| f.0 == FaultKind::ShortGarbage) || werrs > 0 || self.server.saw_unbind || self.dropped_all || !self.driver_alive();
+            let failure_observable = rd_fault || self.fault_done.map_or(false, |f| matches!(f.0, FaultKind::ShortGarbage | FaultKind::InnerOverrun)) || werrs > 0 || self.server.saw_unbind || self.dropped_all || !self.driver_alive();
             for (i, call) in pend {
                 if !failure_observable && self.cur_marker(i).map_or(false, |m| self.plan(&m).silent) {
                     continue; // a silent server and a healthy connection: waiting is correct
@@ -2264,7 +2274,7 @@ impl World {
                 let kind = self.clients[i].cur.as_ref().map(|c| call_kind(&c.0)).unwrap_or("?");
                 self.v(&format!("term:hang:{}:{}", kind, why), format!("nothing can happen any more but client {} is still waiting in {}", i, call));
             }
-            let conn_over = self.fault_done.map_or(false, |f| matches!(f.0, FaultKind::Eof | FaultKind::Reset | FaultKind::Garbage | FaultKind::ShortGarbage))
+            let conn_over = self.fault_done.map_or(false, |f| matches!(f.0, FaultKind::Eof | FaultKind::Reset | FaultKind::Garbage | FaultKind::ShortGarbage | FaultKind::InnerOverrun))
                 || self.server.saw_unbind
                 || self.dropped_all;
             // (a server that never closes after an unbind is outside the fairness assumption:
